@@ -69,19 +69,25 @@ def traced_files():
 
 
 @st.composite
-def program(draw, kind):
+def program(draw, kind, pre=()):
     steps = []
+    # tensors of a framework exist only once that framework is registered: by-type lookups use pre-registered frameworks,
+    # register steps add the other ones (observed through get_name and the final name table)
+    lookup_kinds = ["array", "int"] + [{"fw1": "t1", "fw2": "t2"}[p] for p in pre if p in ("fw1", "fw2")]
+    registrable = [n for n in ["fw1", "fw2", "numpy.alt"] if n not in pre]
     n = draw(st.integers(1, 5))
     open_blocks = []
     for _ in range(n):
         r = draw(st.integers(0, 9))
         if kind == "synthetic":
             if r <= 1:
-                steps.append(["register", draw(st.sampled_from(["fw1", "fw1.hi", "fw2", "numpy.alt"]))])
+                # one backend per framework: the property's quantifier has all backends of a framework registered in one step
+                # (registering a higher-priority sibling after lookups of that tensor type is outside its domain)
+                steps.append(["register", draw(st.sampled_from(registrable))] if registrable else ["get_name", "numpy"])
             elif r <= 3:
-                steps.append(["get_name", draw(st.sampled_from(["numpy", "fw1", "fw1.hi", "fw2", "nope"]))])
+                steps.append(["get_name", draw(st.sampled_from(["numpy", "fw1", "numpy.alt", "fw2", "nope"]))])
             elif r <= 5:
-                steps.append(["get_tensors", draw(st.lists(st.sampled_from(["array", "t1", "t2", "int"]), min_size=1, max_size=2))])
+                steps.append(["get_tensors", draw(st.lists(st.sampled_from(lookup_kinds), min_size=1, max_size=2))])
             elif r <= 7 and len(open_blocks) < 2:
                 b = draw(st.sampled_from(["numpy", "numpy.alt"]))
                 steps.append(["enter", b])
@@ -110,11 +116,11 @@ def program(draw, kind):
 def c10_case(draw, tier="quick"):
     kind = draw(st.sampled_from(["synthetic", "synthetic", "synthetic", "real"]))
     nthreads = draw(st.sampled_from([2, 2, 3]))
-    programs = [draw(program(kind)) for _ in range(nthreads)]
+    pre = draw(st.lists(st.sampled_from(["fw1", "fw2", "numpy.alt"]), max_size=2, unique=True)) if kind == "synthetic" else []
+    programs = [draw(program(kind, tuple(pre))) for _ in range(nthreads)]
     # schedule: mostly "stay" with bursts of switches, so that pre-emptions land inside short critical sections
     nch = draw(st.integers(0, 120))
     choices = [draw(st.sampled_from([0, 0, 0, 0, 1, 2])) for _ in range(nch)]
-    pre = draw(st.lists(st.sampled_from(["fw1", "numpy.alt"]), max_size=2, unique=True)) if kind == "synthetic" else []
     return {"kind": kind, "programs": programs, "choices": choices, "pre": pre, "uid": draw(st.integers(0, 10**9))}
 
 
